@@ -254,7 +254,8 @@ def run_world(sc, observe=0, snapshot=True, setup=None, mutate_constraints=True,
     orig_normal = np.random.normal
     orig_choice = _random.choice
     np.random.normal = noise
-    _random.choice = choice
+    if sc["tapes"].get("choice") != "real":   # 'real': seam off, the library's own random.choice under random.seed
+        _random.choice = choice
     _CUR[0] = ctx
     try:
         with warnings.catch_warnings(record=True) as wlist:
